@@ -122,6 +122,19 @@ func c30check(h *verifrt.H, s Swamp, want int64) {
 		got, _, cerr := s.PatchExpired(1, nil, nil, &PatchFieldsMeta{SetUpdatedAt: true}, nil, nil, 0)
 		h.Assert(cerr == nil, "patch-expired-ok")
 		claimed = len(got) == 1
+		// the patch did not touch the expiry: the record is exactly as expired as before, so
+		// it is still in the expiry index (read in the other direction) and, the clock never
+		// going back, a record claimed as expired once is claimable again
+		list2, l2err := s.GetTreasuresByBeacon(BeaconTypeExpirationTime, IndexOrderDesc, 0, 10, nil, nil)
+		h.Assert(l2err == nil, "expiry-index-read-ok")
+		h.Assert((len(list2) == 1) == (want != 0), "after-expired-patch-expiry-index-still-holds-the-record")
+		tr2, gerr := s.GetTreasure("k")
+		h.Assert(gerr == nil && tr2.GetExpirationTime() == want, "after-expired-patch-expiry-unchanged")
+		again, aerr := s.CloneAndDeleteExpiredTreasures(1)
+		h.Assert(aerr == nil, "shift-expired-ok")
+		if claimed {
+			h.Assert(len(again) == 1, "record-patched-as-expired-is-still-claimable")
+		}
 	}
 	n1 := time.Now().UTC().UnixNano()
 	if want != 0 && want < n0 {
